@@ -140,6 +140,8 @@ def behave(plan, n):
             class AppError(ResolverError):       # applications define their own resolver errors
                 pass
             raise AppError("resolver error at %d" % n, extensions={"node": n})
+        if kind == "empty":
+            raise ResolverError("")          # an error without text is still an error entry with a string message
         if kind == "proxy":
             import types
             raise ResolverError("resolver error at %d" % n, extensions=types.MappingProxyType({"node": n}))   # a Mapping that is not a dict
